@@ -368,6 +368,11 @@ class Scenario:
         @gtirb_rewriting.patch_constraints(x86_syntax=gtirb_rewriting.X86Syntax.INTEL)
         def fn(ctx, _text=text, _mi=mi):
             self.contexts.append((_mi, ctx))
+            self.invocations += 1
+            if self.fault_at is not None and self.invocations == self.fault_at:
+                from harness.rewrite import InjectedFault
+                self.fault_snapshot = set(self.ir.cfg)
+                raise InjectedFault("injected into patch callback %d" % self.invocations)
             return _text
 
         return Patch.from_function(fn)
@@ -378,6 +383,10 @@ class Scenario:
         from gtirb_rewriting import RewritingContext
 
         self.contexts = []
+        self.invocations = 0
+        self.fault_at = getattr(self, "fault_at", None)
+        self.fault_snapshot = None
+        self.original_cfg = self.ir.cfg
         self.ctx = ctx = RewritingContext(self.module, self.functions, expensive_assertions=not self.sym)
         self.data_patch = {}
         for mi, md in enumerate(self.spec.get("mods", [])):
